@@ -35,7 +35,7 @@ def cases(draw, tier, aggs=AGGS, max_nd=None, big=True):
         max_nd = 3 if tier == "quick" else 4
     if big and draw(st.integers(0, 24)) == 0:
         # hundreds / thousands of rows, many categories, up to ten fact columns (stored as a recipe)
-        spec = draw(Q.large_specs(aggs))
+        spec = draw(Q.large_specs(aggs, max_n=4096))  # the 2^16 / 2^17-row recipes are C04's
         spec["ignore"] = draw(st.booleans())
         rmas = [r for r in Q.RMAS if not (r == "plain" and spec["agg"] == "valid_count" and not spec["ignore"])]
         spec["rma"] = draw(st.sampled_from(rmas))
